@@ -124,7 +124,7 @@ c.ensures('free-standing-expression-rejected', 'falsy(result)')
 c = method('compound_command', 'BEGIN', serves=('C06', 'C01'))
 c.loop(0, ['errs() == old(errs())', 'tokens_consumed() > old(tokens_consumed())'], **PL.TOKEN_LOOP)
 c = method('_body', serves=('C06',), progress=False)
-c.loop(0, ['errs() == old(errs())', 'tokens_consumed() >= old(tokens_consumed())'], **PL.TOKEN_LOOP)
+c.loop(0, ['errs() == at_entry(errs())', 'tokens_consumed() >= at_entry(tokens_consumed())'], **PL.TOKEN_LOOP)
 c = method('_script', serves=('C06',), progress=False)
 c = method('_eof', progress=False)
 
@@ -150,6 +150,8 @@ c = method('_param_decl', 'NAME', serves=('C06', 'C03'), setup_extra=_routine_ar
 c.loop(0, ['errs() == old(errs())', 'tokens_consumed() > old(tokens_consumed())'], **PL.cursor_loop(keep=('name',)))
 c.ensures('declarations-emit-no-code', 'len(emitted(self)) == 0')
 c.ensures('declared-in-the-scope-in-effect', 'old(self._context._in_routine) ==> len(globals_added(self)) == 0')
+c.ensures('any-name-can-be-the-first-parameter', 'len(routine._params) >= 1 and routine._params[0] == old(self._current_token._content)')
+c.serves.append('C16') if 'C16' not in c.serves else None
 
 
 # ---- operands
@@ -290,6 +292,28 @@ for pre in ('UNKNOWN', 'EOF', 'NAME'):
     c.ensures('cursor-starts-on-the-first-token-of-the-new-text', 'tokens_consumed() >= 1')
     c.ensures('top-level-commands-are-at-nesting-0', "self._nesting == 0 and (ghost('nesting_at_last_phrase') is None or ghost('nesting_at_last_phrase') == 0)")
     c.ensures('code-generator-and-context-were-cleared', "ghost('cleared') is not None and len(ghost('cleared')) >= 2")
+
+# ---- every compile makes the built-in functions known again (Context.clear wiped them), however often this compiler ran
+c = contract(P, 'parse_twice', serves=['C17', 'C06'], uses=('parser', 'dispatch'), name='lemma:parse(t1); parse(t2) on one compiler', src='''
+def parse_twice(self, t1, t2, builtins_made_known):
+    self.parse(t1)
+    loaded_by_first = builtins_made_known()
+    self.parse(t2)
+    return (loaded_by_first, builtins_made_known())
+''')
+def _setup(b, case):
+    from pyvc.values import Opaque, PyDict, Builtin
+    pr = PL.parser(b, first_token=PL.concrete_token(b.I, 'EOF'))
+    b.ghost('runtime_loaded', 0)
+    rt = b.I.load_module('bardolph.runtime.i_runtime').ns['Runtime']
+    def get_fns(I_, o, a, k):
+        I_.ghost['runtime_loaded'] = I_.ghost['runtime_loaded'] + 1
+        return PyDict()
+    lib.provide(b, rt, Opaque('runtime', {'get_fns': get_fns}))
+    return {'self': pr, 't1': b.sym('str', 'text1'), 't2': b.sym('str', 'text2'),
+            'builtins_made_known': Builtin('builtins_made_known', lambda I_, a, k: I_.ghost['runtime_loaded'])}
+c.setup(_setup)
+c.ensures('the-built-ins-are-made-known-at-every-compile', 'result[0] == 1 and result[1] == 2')
 
 c = method('next_token', serves=('C06',), progress=False)
 c.ensures('advances-unless-at-the-end', "result is True and not old(self._current_token._token_type is TokenTypes.EOF) ==> tokens_consumed() == old(tokens_consumed()) + 1")
